@@ -1628,7 +1628,7 @@ fn check_signal(ctx: &mut Ctx, p: &SignalPlan) -> Res {
         2 if p.term => vec![libc::SIGINT, libc::SIGQUIT],
         _ => vec![],
     };
-    let cfg = SrvCfg { seed_hex: GOOD_SEED.into(), workers: Some(p.workers as u64), client_stats: p.stats, status_interval: p.status_interval.map(|x| x as u32), inherit_ignored, health: p.fd_exhausted, ..Default::default() };
+    let cfg = SrvCfg { seed_hex: GOOD_SEED.into(), workers: Some(p.workers as u64), client_stats: p.stats, status_interval: p.status_interval.map(|x| x as u32), inherit_ignored, health: p.fd_exhausted && !p.stats, ..Default::default() };
     let mut s = match ServerProc::start(&cfg) {
         Ok(s) => s,
         Err(e) => {
@@ -1817,9 +1817,25 @@ fn check_signal(ctx: &mut Ctx, p: &SignalPlan) -> Res {
     // how much is queued at the server right now (measures whether a flood really keeps the queue non-empty)
     let rxq = (0..3).map(|_| udp_rx_queue_for_port(s.port)).max().unwrap_or(0);
     let mut pending_health: Vec<TcpStream> = vec![];
-    if p.fd_exhausted {
+    // (not with the statistics reporter on: it opens files of its own, which is not what this plan is about)
+    if p.fd_exhausted && !p.stats {
+        // only once start-up is over: every worker has its sockets and poll instance (descriptor count stable for
+        // 200 ms), otherwise the lowered limit would hit a worker that is still being set up
+        let mut stable = 0;
+        let mut last = s.fd_count();
+        let t_stable = Instant::now();
+        while stable < 10 && t_stable.elapsed() < Duration::from_secs(3) {
+            std::thread::sleep(Duration::from_millis(20));
+            let now = s.fd_count();
+            if now == last {
+                stable += 1;
+            } else {
+                stable = 0;
+                last = now;
+            }
+        }
         if let (Some(hc), Some(open)) = (s.hc_port, s.fd_count()) {
-            if s.set_nofile_soft(open as u64) {
+            if stable >= 10 && s.set_nofile_soft(open as u64) {
                 for _ in 0..p.workers.max(1) as usize * 2 {
                     if let Ok(st) = TcpStream::connect_timeout(&format!("127.0.0.1:{}", hc).parse().unwrap(), Duration::from_secs(1)) {
                         pending_health.push(st);
